@@ -286,8 +286,19 @@ func (n *vNode) newLogStore() {
 
 // quiesce waits until the verifier goroutine is parked in ReportFn or has
 // delivered everything that was accepted into the channel.
+// After a few timeouts the limits shrink so that a broken implementation
+// (uncounted drops, blocking sends) is reported without the run taking hours.
+var vfyTimeouts int
+
+func vfyLimit(full time.Duration) time.Duration {
+	if vfyTimeouts >= 3 {
+		return full / 20
+	}
+	return full
+}
+
 func (n *vNode) quiesce() bool {
-	deadline := time.Now().Add(10 * time.Second)
+	deadline := time.Now().Add(vfyLimit(4 * time.Second))
 	for i := 0; ; i++ {
 		if n.inCB.Load() {
 			return true
@@ -299,7 +310,8 @@ func (n *vNode) quiesce() bool {
 		if i > 200 {
 			time.Sleep(20 * time.Microsecond)
 		}
-		if i&1023 == 0 && time.Now().After(deadline) {
+		if i&255 == 0 && time.Now().After(deadline) {
+			vfyTimeouts++
 			return false
 		}
 	}
@@ -380,8 +392,9 @@ func (v *vRun) storeLogsLocked(n *vNode, batch, orig, twinBatch []*raft.Log, ref
 	var err error
 	select {
 	case err = <-done:
-	case <-time.After(3 * time.Second):
-		v.c.witness("C18", "storelogs-blocked", fmt.Sprintf("StoreLogs did not return within 3s (ReportFn parked=%v)", n.parked()), v.line)
+	case <-time.After(vfyLimit(3 * time.Second)):
+		vfyTimeouts++
+		v.c.witness("C18", "storelogs-blocked", fmt.Sprintf("StoreLogs did not return within its time limit (ReportFn parked=%v)", n.parked()), v.line)
 		n.dead = true
 		return "hang"
 	}
@@ -534,6 +547,9 @@ func applyMut(l *raft.Log, kind, a, b string) {
 
 func (v *vRun) op(f []string) string {
 	n := v.nodes[parseU(f[1])]
+	if n.dead && f[0] != "r" {
+		return "dead" // a StoreLogs on this node never returned: leave it alone
+	}
 	switch f[0] {
 	case "a":
 		cnt := int(parseU(f[2]))
@@ -909,8 +925,8 @@ func execVfy(c *ctx, line string) string {
 			n.unblock()
 			if !n.dead {
 				n.quiesce()
+				n.ls.Close()
 			}
-			n.ls.Close()
 		}
 		if kind == "w" {
 			os.RemoveAll(base)
